@@ -94,6 +94,11 @@ def correspond(ctx):
     if res is None:
         return
     ctx.impl = res
+    for err in res.get("errors", []):
+        ctx.problem("harness", "c11_impl.py internal error", err)
+    for key in ("topo", "adjacent", "geom", "derived", "union"):
+        res.setdefault(key, [])
+    res.setdefault("topo_hist", {})
     topo = res["topo"]
     jobs, meta = [], []
     for k, ch in enumerate(U.chunks(topo, 180)):
@@ -180,7 +185,7 @@ def correspond(ctx):
                         "non-trivial = distinct element lists accepted by Grid with a non-empty edge- or vertex-adjacency table")
     ok = [c for c in topo if c["tables"] is not None]
     ctx.corr["samples"] = [{"elements": c["els"], "nv": c["nv"], "edge_adjacency": c["tables"]["edge_adjacency"][:4],
-                            "edges": c["tables"]["edges"][:6]} for c in ok[300:303]] + \
+                            "edges": c["tables"]["edges"][:6]} for c in (ok[300:303] or ok[:3])] + \
                           [{"elements": c["els"], "nv": c["nv"], "exception": c["exc"]} for c in topo if c["exc"]][:3]
 
 
